@@ -3,18 +3,29 @@ C12 — both formatters change only white space and are idempotent.
 
 Part 2: the Wuffs formatter (`lang/render` driven as in `cmd/wuffsfmt`), over
 `Model/FmtToken.lean` (Tokenize), `Model/RenderTokens.lean` (Render, repaired:
-fixes/C12-render-comment-only-file.patch) and `Model/Render.lean` (appendNum); the token
-tables are `Gen/C12_Tokens.lean`, regenerated from /repo/lang/token on every run.
-Helper lemmas: `Proof/RenderNum.lean`, `Proof/RenderPairs.lean`.
+fixes/C12-render-comment-only-file.patch, fixes/C12-render-number-not-retokenizable.patch) and
+`Model/Render.lean` (appendNum); the token tables are `Gen/C12_Tokens.lean`, regenerated from
+/repo/lang/token on every run.
+Helper lemmas: `Proof/RenderNum.lean`, `Proof/RenderPairs.lean` (round 1) and the
+re-tokenization development of round 2: `Proof/RenderLex.lean` (one step of Tokenize as a pure
+function, `TokRun`), `RenderWf.lean` (shapes of token texts, read back before a stopping byte),
+`RenderNumWf.lean` (what Render writes for a number is again a number), `RenderTables.lean`
+(finite facts about the regenerated tables), `RenderAdj.lean`, `RenderLine.lean` (a rendered
+line is read back token by token; the no-space decisions are safe), `RenderPieces.lean`
+(output lines as pieces), `RenderShape.lean` (Render's loop produces well-formed pieces),
+`RenderRetok.lean` (assembly).
 
-The two clauses of the property are STATED in full below (`RenderRetokenizes`,
-`RenderIdempotent`) and are OPEN as theorems over all sources; what is proved are the two
-ingredients the design names — value preservation of `appendNum`, and the finite
-"no-space pairs cannot merge" obligation lifted to every continuation — and the clauses
-are evaluated on the implementation, and the models tied to it byte-for-byte, on every run.
+`render_retokenizes` is PROVED for the token half (`render_retokenizes_partial`): for every
+stream of well-formed tokens and comments whose lines satisfy `linesOK` — what the parser
+guarantees and the harness checks on every accepted source (op `rok`) — and whose output has
+fewer than maxLine lines, the output of `Render` tokenizes again, to the same number of
+tokens, pairwise equal as texts or equal as numbers.  The comment half and `render_idempotent`
+are stated in full below and are OPEN as theorems; they are evaluated on the implementation,
+and the models tied to it byte-for-byte, on every run.
 -/
 import WuffsVerif.Proof.RenderNum
 import WuffsVerif.Proof.RenderPairs
+import WuffsVerif.Proof.RenderRetok
 
 namespace WuffsVerif.Props.C12
 open WuffsVerif.FmtToken WuffsVerif.Render WuffsVerif.Gen.C12
@@ -23,10 +34,8 @@ abbrev Bytes := List UInt8
 
 /-! ## The clauses, in full -/
 
-/-- token texts equal, or both numeric literals of equal value -/
-def tokEquiv (a b : Tok) : Prop :=
-  a.text = b.text ∨ (∃ v, numValue a.text = some v ∧ numValue b.text = some v ∧
-    (a.text.head?.map numeric = some true) ∧ (b.text.head?.map numeric = some true))
+/-- token texts equal, or both numeric literals of equal value (`Render.tokEquiv`) -/
+abbrev tokEquiv (a b : Tok) : Prop := WuffsVerif.Render.tokEquiv a b
 
 /-- the non-empty comments in order, trailing spaces removed -/
 def commentList (comments : Array Bytes) : List Bytes :=
@@ -57,14 +66,59 @@ def RenderIdempotent (Accepts : List Tok → Prop) : Prop :=
     tokenize src = some (toks, comments) → Accepts toks → render toks comments = some out →
     fmt out = some out
 
--- OPEN: theorem render_retokenizes : RenderRetokenizes ParserAccepts
+-- OPEN: theorem render_retokenizes : RenderRetokenizes ParserAccepts   (comment half: the comments and
+--   their interleaving with the tokens; the token half is `render_retokenizes_partial` below)
 -- OPEN: theorem render_idempotent : RenderIdempotent ParserAccepts
---   Missing: a model of lang/parse (to say which token sequences occur), and the induction over
---   Render's line loop that reduces re-tokenization of a whole line to adjacent pairs (the pair
---   step is `render_nospace_pairs_retokenize_partial` below) and re-derives the line numbers,
---   hanging-ness and varNameLength alignment from the rendered text.  Both clauses are evaluated
---   on the real Tokenize/Parse/Render for every harness case, and `fmt` (Tokenize + Render of
---   the models) is compared byte-for-byte with the implementation.
+--   Missing for the comment half: the bookkeeping that `flushComments` / `trailingComments` write every
+--   comment exactly once and in order (needs the source lines to be non-decreasing), carried through
+--   `Proof/RenderShape.lean`'s piece list — the pieces already fix the order of tokens and comments in the
+--   OUTPUT (`Piece.out`, `Piece.outComment`).  Missing for idempotence: that Render's decisions (indent,
+--   hanging, blank lines, varNameLength) depend on the line numbers only through equality / adjacency, which
+--   the re-read stream preserves.  Both clauses are evaluated on the real Tokenize/Parse/Render for every
+--   harness case, and `fmt` (Tokenize + Render of the models) is compared byte-for-byte with the
+--   implementation.
+
+/-! ## `render_retokenizes`, token half -/
+
+/-- The hypothesis on the token stream, decidable (driver op `rok`; the harness checks it on every
+source the real wuffsfmt accepts): every token is one `Tokenize` can produce (`wfTok`: a squiggly
+token of the tables, or a word / number / string text with its interned ID); every comment is empty
+or `//…` without a newline; and on every source line (`linesOK`) a token is left after the trailing
+semicolons are stripped, exactly one ";" is stripped if the last token left asks for an implicit
+semicolon and none otherwise, and no adjacent pair is "." before "." or "+"/"-" before "=". -/
+def streamOK (toks : List Tok) (comments : Array Bytes) : Bool :=
+  toks.all wfTok && comments.toList.all wfComment && linesOK (toks.length + 1) toks
+
+/-- `render_retokenizes_partial` (PROVED; the token half of `RenderRetokenizes`, for ALL streams):
+if `streamOK toks comments`, `Render` accepts, and its output has fewer than `maxLine` lines (see
+KNOWN_FINDINGS retok:too-many-lines), then the output tokenizes again, into the same number of
+tokens, and each output token equals the corresponding input token as a text, or both are numeric
+literals of the same value.  In particular wherever `Render` writes no space the tokenizer
+neither merges nor re-splits, the names before an aligned ":" and the padding are read back, the
+re-grouped numbers are numbers, and the implicit semicolons come back exactly where explicit or
+implicit ones were stripped. -/
+theorem render_retokenizes_partial (toks : List Tok) (comments : Array Bytes) (out : Bytes)
+    (hok : streamOK toks comments = true) (hr : render toks comments = some out)
+    (hnl : out.count 10 < maxLine) :
+    ∃ toks' comments', tokenize out = some (toks', comments') ∧
+      toks.length = toks'.length ∧ ∀ p ∈ toks.zip toks', tokEquiv p.1 p.2 := by
+  unfold streamOK at hok
+  rw [Bool.and_eq_true, Bool.and_eq_true] at hok
+  obtain ⟨⟨h1, h2⟩, h3⟩ := hok
+  obtain ⟨ps, _, _, _, htok, hlen, hrel⟩ := render_retokenizes_tokens toks comments out
+    (fun t ht => List.all_eq_true.mp h1 t ht) (fun c hc => List.all_eq_true.mp h2 c hc) h3 hr hnl
+  exact ⟨_, _, htok, hlen, hrel⟩
+
+/-- non-vacuity: the tokens of `x = 0X1f +y;` / `// c` / `{ .z }` satisfy the hypotheses, are rendered
+(`x = 0x1F + y`, `// c`, `{.z }`), and the theorem's conclusion can be observed -/
+example :
+    (match tokenize [120, 32, 61, 32, 48, 88, 49, 102, 32, 43, 121, 59, 10, 47, 47, 32, 99, 10, 123, 32, 46, 122, 32, 125, 10] with
+     | some (toks, comments) =>
+       streamOK toks comments &&
+       render toks comments ==
+         some [120, 32, 61, 32, 48, 120, 49, 70, 32, 43, 32, 121, 10, 47, 47, 32, 99, 10, 123, 46, 122, 32, 125, 10]
+     | none => false) = true := by
+  decide +kernel
 
 /-! ## Proved ingredients -/
 
